@@ -1,11 +1,16 @@
 (* P.C14 -- The initial interpolation set is feasible next to bounds; direction generators stay in their bounds (partial).
    Theorems: [ord] the last statement of both random-direction generators clips every returned direction into
    [lower, upper] exactly (regenerated expression; all binary64 values); the points the solver evaluates are inside the user's
-   bounds by C01.  Distances in [0.01, 2]*rhobeg, affine independence and conditioning < 1e4 of the coordinate initialisation, and
-   the length of the generated directions, are validated by the oracle sweep only (the orthogonal generator's 2*delta directions are
-   known finding F19). *)
-From Coq Require Import ZArith List Bool String Lia.
-Require Import DV.Base.Prelude DV.Base.F64 DV.Base.OrdLaws DV.Spec.Schema DV.Lib.Tables.
+   bounds by C01; [R] the decision logic of the coordinate initialisation regenerated from controller.py (the two boundary
+   tests, the first and the second step along a coordinate, then the clip of as_absolute_coordinates) puts both points of
+   every coordinate inside [sl, su], at a distance between fl(0.01)*rhobeg >= 0.01*rhobeg and 2*rhobeg from x0, and apart
+   from each other, for every box with sl <= 0 <= su and su - sl >= 2*rhobeg (what solve() guarantees after projecting x0
+   and checking the gap).  Off-diagonal points (k > 2n, copies of first-step coordinates, possibly swapped), affine
+   independence and conditioning < 1e4, and the length of the generated directions, are validated by the oracle sweep only
+   (the orthogonal generator's 2*delta directions are known finding F19). *)
+From Coq Require Import ZArith List Bool String Lia Reals Lra.
+From Flocq Require Import Core Raux.
+Require Import DV.Base.Prelude DV.Base.F64 DV.Base.OrdLaws DV.Spec.Schema DV.Lib.MRad DV.Lib.Tables.
 From G Require Import Gen_util Gen_solver Gen_tables.
 Import ListNotations.
 
@@ -29,5 +34,69 @@ Theorem C14_initial_points_go_through_the_model :
           (filter (fun c => streq (c_func c) "Controller.initialise_coordinate_directions" || streq (c_func c) "Controller.initialise_random_directions") (calls_of T_calls "evaluate_objective")) = true.
 Proof. vm_compute. reflexivity. Qed.
 
+(* ---- coordinate initialisation, one coordinate, exact reals ---- *)
+Section CoordInit.
+Local Open Scope R_scope.
+Definition c01 : R := @ofdy ArithR 5764607523034235 (-59).          (* the double nearest to 0.01 *)
+Lemma c01_bounds : 1 / 100 <= c01 <= 1001 / 100000.
+Proof.
+  unfold c01. rewrite ofdyR. cbn [bpow]. change (Z.pow_pos radix2 59) with 576460752303423488%Z.
+  assert (H: 0 < IZR 576460752303423488) by (apply IZR_lt; lia).
+  split.
+  - apply (Rmult_le_reg_r (IZR 576460752303423488)); auto. rewrite Rmult_assoc, Rinv_l, Rmult_1_r by lra.
+    apply (Rmult_le_reg_l 100); [lra|]. replace (100 * (1 / 100 * IZR 576460752303423488)) with (IZR 576460752303423488) by lra.
+    rewrite <- mult_IZR. apply IZR_le. lia.
+  - apply (Rmult_le_reg_r (IZR 576460752303423488)); auto. rewrite Rmult_assoc, Rinv_l, Rmult_1_r by lra.
+    apply (Rmult_le_reg_l 100000); [lra|]. replace (100000 * (1001 / 100000 * IZR 576460752303423488)) with (1001 * IZR 576460752303423488) by lra.
+    rewrite <- !mult_IZR. apply IZR_le. lia.
+Qed.
+(* one coordinate of Model.as_absolute_coordinates, relative to xbase: np.minimum(np.maximum(sl, x), su) *)
+Definition clipR (sl su x : R) : R := Rmin (Rmax sl x) su.
+Definition first_point (sl su delta : R) : R :=
+  clipR sl su (@py_init_stepa ArithR (@py_init_at_upper_boundary ArithR su delta) delta).
+Definition second_point (sl su delta : R) : R :=
+  clipR sl su (@py_init_stepb ArithR (@py_init_at_lower_boundary ArithR sl delta) (@py_init_at_upper_boundary ArithR su delta) delta sl su).
+Lemma c_two : @ofdy ArithR 1 1 = 2. Proof. rewrite ofdyR. cbn [bpow]. change (Z.pow_pos radix2 1) with 2%Z. lra. Qed.
+Lemma c_mtwo : @ofdy ArithR (-1) 1 = -2. Proof. rewrite ofdyR. cbn [bpow]. change (Z.pow_pos radix2 1) with 2%Z. lra. Qed.
+Lemma c_m01 : @ofdy ArithR (-5764607523034235) (-59) = - c01.
+Proof. unfold c01. rewrite !ofdyR. change (IZR (-5764607523034235)) with (- IZR 5764607523034235). lra. Qed.
+Ltac rmm := unfold Rmin, Rmax in *;
+  repeat (match goal with
+          | |- context[Rle_dec ?a ?b] => destruct (Rle_dec a b)
+          | H : context[Rle_dec ?a ?b] |- _ => destruct (Rle_dec a b)
+          end); try lra.
+Theorem C14_coordinate_points_feasible_and_spread : forall sl su delta, 0 < delta -> sl <= 0 <= su -> 2 * delta <= su - sl ->
+  let a := first_point sl su delta in let b := second_point sl su delta in
+  sl <= a <= su /\ sl <= b <= su /\
+  c01 * delta <= Rabs a <= delta /\ c01 * delta <= Rabs b <= 2 * delta /\
+  c01 * delta <= Rabs (a - b).
+Proof.
+  intros sl su delta Hd [Hl Hu] Hg. cbv zeta. pose proof c01_bounds as [Hc1 Hc2].
+  unfold first_point, second_point, py_init_stepa, py_init_stepb, py_init_at_upper_boundary, py_init_at_lower_boundary, clipR.
+  rewrite ?pymin_R, ?pymax_R, c_two, c_mtwo, c_m01. cbn [lt mul fneg ArithR]. change (@ofdy ArithR 5764607523034235 (-59)) with c01.
+  assert (Hcd: 0 < c01 * delta <= 1001 / 100000 * delta) by (split; nra).
+  replace (- c01 * delta) with (- (c01 * delta)) by ring. set (e := c01 * delta) in *. clearbody e. clear Hc1 Hc2.
+  case (Rlt_bool_spec su e); intros Hau; case (Rlt_bool_spec (- e) sl); intros Hal; cbn [negb].
+  - (* both flags: impossible, the gap would be below 2 delta *) exfalso. lra.
+  - (* at the upper bound only *)
+    assert (Hs: sl <= -(198/100) * delta) by lra.
+    repeat split; try (apply Rabs_le); try (unfold Rabs; destruct (Rcase_abs _)); rmm.
+  - (* at the lower bound only *)
+    assert (Hs: (198/100) * delta <= su) by lra.
+    repeat split; try (apply Rabs_le); try (unfold Rabs; destruct (Rcase_abs _)); rmm.
+  - (* interior *)
+    repeat split; try (apply Rabs_le); try (unfold Rabs; destruct (Rcase_abs _)); rmm.
+Qed.
+(* hypotheses are satisfiable, and the conclusion is not trivial: x0 exactly on its upper bound *)
+Example C14_coordinate_points_example : first_point (-3) 0 1 = -1 /\ second_point (-3) 0 1 = -2.
+Proof.
+  unfold first_point, second_point, py_init_stepa, py_init_stepb, py_init_at_upper_boundary, py_init_at_lower_boundary, clipR.
+  rewrite ?pymin_R, ?pymax_R, c_two, c_mtwo, c_m01. cbn [lt mul fneg ArithR]. change (@ofdy ArithR 5764607523034235 (-59)) with c01. pose proof c01_bounds as [Hc1 Hc2].
+  case (Rlt_bool_spec 0 (c01 * 1)); intros H1; [|exfalso; lra]. case (Rlt_bool_spec (- c01 * 1) (-3)); intros H2; [exfalso; lra|].
+  cbn [negb]. split; rmm.
+Qed.
+End CoordInit.
+
 Print Assumptions C14_generated_directions_are_inside_bounds.
 Print Assumptions C14_generators_return_requested_count.
+Print Assumptions C14_coordinate_points_feasible_and_spread.
